@@ -449,7 +449,7 @@ def shards(tier):
 
 def run_shard(spec, seed, tier):
     res = ShardResult()
-    n = 40 if tier == "quick" else 300
+    n = 60 if tier == "quick" else 900
     hyp.search(res, st_case(spec["scheme"]), body, seed, n)
     # the same workflows through frontend.client.commands (the functions behind run_client.py), results parsed from stdout
     hyp.search(res, st_cli_case(spec["scheme"]), body, seed + 1, 6 if tier == "quick" else 40)
